@@ -293,7 +293,9 @@ def check(rep, F, tier, replay=None):
     if len(enc) == 1:
         rep.inst("HEX-sym")
         e_set = schemas_reaching(F.hir[enc[0]]["body"], lambda n: n[0] == "index", PV)
-        if e_set != {"BasicConversions"}:
+        if not e_set and any(n_[0] == "mcall" and n_[2] in ("strip_prefix", "trim_start_matches", "split_at") for n_ in H.walk(F.hir[enc[0]]["body"])):
+            rep.lost("plutus encode_string strips the 0x prefix in a shape HEX-sym does not read (strip_prefix / match on a tuple)")
+        elif e_set != {"BasicConversions"}:
             rep.violation("HEX-sym", "plutus", "datum JSON: the 0x prefix is stripped and the rest decoded as bytes under %s (must be BasicConversions only; DetailedSchema carries bare hex in tagged objects)" % sorted(e_set), {})
         else:
             rep.sample({"rule": "HEX-sym", "datum_encode_strip_0x": sorted(e_set)})
